@@ -141,7 +141,7 @@ func instrSubject(in ssa.Instruction, kind string) string {
 // oblName returns the stable name of an obligation raised at instr.
 func (c *Ctx) oblName(in ssa.Instruction, kind string) string {
 	fn := in.Parent()
-	subj := instrSubject(in, kind)
+	subj := c.eng.stableSubject(fn, instrSubject(in, kind))
 	tbl := c.eng.nameTable(fn)
 	key := kind + "[" + subj + "]"
 	ord := 0
@@ -169,7 +169,7 @@ func (e *Engine) nameTable(fn *ssa.Function) map[string][]ssa.Instruction {
 	}
 	t := map[string][]ssa.Instruction{}
 	add := func(kind string, in ssa.Instruction) {
-		key := kind + "[" + instrSubject(in, kind) + "]"
+		key := kind + "[" + e.stableSubject(fn, instrSubject(in, kind)) + "]"
 		t[key] = append(t[key], in)
 	}
 	for _, b := range fn.Blocks {
@@ -575,6 +575,9 @@ func (st *State) chanClosed(chv Val) Term {
 // events
 
 func (st *State) event(name string, pos token.Pos, args ...Term) {
+	if st.fr != nil && st.fr.fn != nil {
+		name = st.ctx.eng.stableEventName(st.fr.fn, name)
+	}
 	st.trace = append(st.trace, Event{Name: name, Args: args, Pos: pos})
 }
 
